@@ -207,25 +207,46 @@ fn instruments() -> IndexedInstruments {
 }
 
 /// `record`: the traded markets plus the markets of the data-only exchange (if any)
-fn instruments_with(data_only: Option<ExchangeId>) -> IndexedInstruments {
+/// (`second`: the SECOND universe of a process - the same exchanges, assets and counts, but every market under another
+///  internal and another exchange name)
+fn instruments_with(data_only: Option<ExchangeId>, second: bool) -> IndexedInstruments {
     let b = MARKETS.iter().fold(IndexedInstruments::builder(), |b, (x, name, name_ex, base, _)| {
-        b.add_instrument(Instrument::spot(EXCHANGES[*x], *name, *name_ex, Underlying::new(*base, "usdt"), None))
+        b.add_instrument(Instrument::spot(EXCHANGES[*x], u_name(name, second), u_name_ex(name_ex, second), Underlying::new(*base, "usdt"), None))
     });
     match data_only {
-        Some(d) => REF_MARKETS.iter().fold(b, |b, (name, name_ex, base, _)| b.add_instrument(Instrument::spot(d, *name, *name_ex, Underlying::new(*base, "usdt"), None))),
+        Some(d) => REF_MARKETS.iter().fold(b, |b, (name, name_ex, base, _)| b.add_instrument(Instrument::spot(d, u_name(name, second), u_name_ex(name_ex, second), Underlying::new(*base, "usdt"), None))),
         None => b,
     }
     .build()
 }
+fn u_name(name: &str, second: bool) -> String {
+    if second { format!("{name}_u2") } else { name.to_string() }
+}
+fn u_name_ex(name_ex: &str, second: bool) -> String {
+    if second { format!("{name_ex}.2") } else { name_ex.to_string() }
+}
 
-fn ref_insts(indexed: &IndexedInstruments, data_only: Option<ExchangeId>) -> Vec<Inst> {
+/// `record`: the traded instruments of the run's universe, in the order of MARKETS
+fn insts_u(indexed: &IndexedInstruments, second: bool) -> Vec<Inst> {
+    MARKETS
+        .iter()
+        .map(|(x, name, _, _, price)| Inst {
+            ex: EXCHANGES[*x],
+            exi: indexed.find_exchange_index(EXCHANGES[*x]).expect("exchange indexed"),
+            idx: indexed.find_instrument_index(EXCHANGES[*x], &InstrumentNameInternal::new(u_name(name, second))).expect("instrument indexed"),
+            price: *price,
+        })
+        .collect()
+}
+
+fn ref_insts(indexed: &IndexedInstruments, data_only: Option<ExchangeId>, second: bool) -> Vec<Inst> {
     let Some(d) = data_only else { return vec![] };
     REF_MARKETS
         .iter()
         .map(|(name, _, _, price)| Inst {
             ex: d,
             exi: indexed.find_exchange_index(d).expect("exchange indexed"),
-            idx: indexed.find_instrument_index(d, &InstrumentNameInternal::new(*name)).expect("instrument indexed"),
+            idx: indexed.find_instrument_index(d, &InstrumentNameInternal::new(u_name(name, second))).expect("instrument indexed"),
             price: *price,
         })
         .collect()
@@ -275,20 +296,33 @@ fn main() {
 
 async fn record(args: Args) {
     if args.cmd != "record" {
-        usage("system record --seed S --rounds N --out f [--data-only first|middle|last|none] | system lifecycle --scenarios f --seeded N --seed S --out f");
+        usage("system record --seed S --rounds N --out f [--out2 f2 [--rounds2 M]] [--data-only first|middle|last|none] | system lifecycle --scenarios f --seeded N --seed S --out f");
     }
-    let mut rng = rng(args.u64("seed", 1));
-    let rounds = args.usize("rounds", 60);
-    let mut out = Out::create(args.req("out"));
+    let mut summary = record_run(&args, false).await;
+    // `--out2`: the SAME process then builds a SECOND system - same exchanges, same numbers of assets and instruments, the
+    // same data-only exchange, but every market under other names (internal and exchange names) - and drives it for a
+    // few rounds: whatever a builder keeps from one system to the next in a process (a cache keyed by shape, say) shows
+    // as requests addressed by the first universe's names, which the second universe's exchange does not know
+    if args.get("out2").is_some() {
+        summary["second"] = record_run(&args, true).await;
+    }
+    println!("{summary}");
+}
+
+async fn record_run(args: &Args, second: bool) -> Value {
+    CLOSE_IDS.store(0, std::sync::atomic::Ordering::Relaxed);
+    let mut rng = rng(args.u64("seed", 1) + if second { 7919 } else { 0 });
+    let rounds = if second { args.usize("rounds2", 12) } else { args.usize("rounds", 60) };
+    let mut out = Out::create(args.req(if second { "out2" } else { "out" }));
 
     // the data-only exchange of this run and where it sorts among the traded ones
     let (data_only, position) = match args.get("data-only") {
         Some(p) => *DATA_ONLY.iter().find(|(_, name)| *name == p).unwrap_or_else(|| usage("--data-only first|middle|last|none")),
         None => DATA_ONLY[(args.u64("seed", 1) % 4) as usize],
     };
-    let instruments = instruments_with(data_only);
-    let insts = insts(&instruments);
-    let refs = ref_insts(&instruments, data_only);
+    let instruments = instruments_with(data_only, second);
+    let insts = insts_u(&instruments, second);
+    let refs = ref_insts(&instruments, data_only, second);
     // every instrument the engine tracks: the traded ones first (indices 0..n_inst), then the data-only exchange's
     let all: Vec<Inst> = insts.iter().chain(refs.iter()).cloned().collect();
     let present: Vec<&'static str> = instruments.exchanges().iter().map(|e| e.value.as_str()).collect();
@@ -309,21 +343,42 @@ async fn record(args: Args) {
         DefaultGlobalData::default(),
         DefaultInstrumentMarketData::default,
     );
-    let mut system = SystemBuilder::new(sys_args)
+    // (the first system of a process must come up: anything else is a tool problem.  A SECOND system that cannot be built
+    //  or initialised is data: an index / name that cannot be translated says the execution links were built around
+    //  another universe's maps)
+    let names: Vec<String> = instruments.instruments().iter().map(|i| format!("{}:{}", i.value.exchange.value.as_str(), i.value.name_exchange)).collect();
+    let failed = |out: Out, what: &str, e: String| -> Value {
+        if !second {
+            usage(&format!("system {what}: {e}"));
+        }
+        let mut out = out;
+        let mut a = json!({"a": "Anomaly", "anomaly": format!("the second system of the process could not be {what}: {}", e.chars().take(400).collect::<String>())});
+        if e.contains("Index") {
+            a["tag"] = json!("wrong_instrument_name");
+        }
+        out.line(&a);
+        let n = out.finish();
+        json!({"lines": n, "exchanges": present, "names": names, "failed": what})
+    };
+    let build = match SystemBuilder::new(sys_args)
         .engine_feed_mode(if args.u64("seed", 1) % 2 == 0 { EngineFeedMode::Iterator } else { EngineFeedMode::Stream })
         .audit_mode(AuditMode::Enabled)
         .trading_state(TradingState::Enabled) // so that the observer is called after every event
         // balances seeded through the builder, as a user of SystemBuilder would (same as the mock's account)
         .balances((0..2).flat_map(|x| funds(x).into_iter().map(move |(a, v)| (EXCHANGES[x], a, Balance { total: dec(v), free: dec(v) }))))
         .build::<EngineEvent, _>()
-        .unwrap_or_else(|e| usage(&format!("system build: {e:?}")))
-        .init_with_runtime(tokio::runtime::Handle::current())
-        .await
-        .unwrap_or_else(|e| usage(&format!("system init: {e:?}")));
+    {
+        Ok(b) => b,
+        Err(e) => return failed(out, "built", format!("{e:?}")),
+    };
+    let mut system = match build.init_with_runtime(tokio::runtime::Handle::current()).await {
+        Ok(s) => s,
+        Err(e) => return failed(out, "initialised", format!("{e:?}")),
+    };
     let SnapUpdates { snapshot: audit_snapshot, updates: mut audit_rx } = system.audit.take().expect("audit enabled");
     // ---- freshness trace (spec/Freshness.tla): seeded balances, then every balance the exchange delivers
     // (the traded exchanges' balances: the assets of a data-only exchange have no balance, seeded or delivered)
-    let mut fresh = args.get("fresh-out").map(Out::create);
+    let mut fresh = if second { None } else { args.get("fresh-out").map(Out::create) };
     let seeded: Vec<(String, i64, Value)> = audit_snapshot.event.assets.0.iter().filter(|(k, _)| EXCHANGES.contains(&k.exchange)).map(|(k, a)| {
         let b = a.balance.as_ref();
         (format!("bal_{}_{}", k.exchange.as_str(), k.asset), b.map(|b| untime_ms(b.time)).unwrap_or(-1), b.map(|b| dec_units(b.value.total, 1000)).unwrap_or(json!(-1)))
@@ -548,7 +603,7 @@ async fn record(args: Args) {
     }
     // ---- the execution link of the exchange goes down: kill the (mock) exchange task and wait for the
     // engine to process the account-stream disconnect notice
-    let drop_link = args.u64("drop-link", 1) == 1;
+    let drop_link = !second && args.u64("drop-link", 1) == 1;
     let mut killed: Vec<&'static str> = vec![];
     if drop_link {
         // one link after the other (which one first depends on the seed), each time waiting for the
@@ -623,6 +678,7 @@ async fn record(args: Args) {
     let mut stop_explained = false;
     let mut stopped = false;
     let mut processed_cmds: Vec<String> = vec![];
+    let mut opens_filled = 0usize;
     for tick in records.iter() {
         let EngineAudit::Process(p) = &tick.event else { continue };
         ticks += 1;
@@ -712,9 +768,12 @@ async fn record(args: Args) {
                         OrderState::Inactive(InactiveOrderState::OpenFailed(_)) => "open_failed",
                         OrderState::Inactive(_) => "open_filled",
                     };
-                    lines.push(json!({"a": "Process", "c": s.0.key.cid.0.as_str(), "kind": kind, "x": ex_name(ev.exchange), "key_x": ex_name(s.0.key.exchange)}));
+                    if kind == "open_filled" { opens_filled += 1 }
+                    // (why an open failed: the exchange did not know the instrument name it was addressed with / anything else)
+                    let why = if kind == "open_failed" && format!("{:?}", s.0.state).contains("InstrumentInvalid") { "instrument_invalid" } else { "other" };
+                    lines.push(json!({"a": "Process", "c": s.0.key.cid.0.as_str(), "kind": kind, "why": why, "x": ex_name(ev.exchange), "key_x": ex_name(s.0.key.exchange)}));
                 }
-                AccountEventKind::OrderCancelled(r) => lines.push(json!({"a": "Process", "c": r.key.cid.0.as_str(), "kind": if r.state.is_ok() { "cancel_ok" } else { "cancel_err" },
+                AccountEventKind::OrderCancelled(r) => lines.push(json!({"a": "Process", "c": r.key.cid.0.as_str(), "kind": if r.state.is_ok() { "cancel_ok" } else { "cancel_err" }, "why": "other",
                                                                           "x": ex_name(ev.exchange), "key_x": ex_name(r.key.exchange)})),
                 _ => {}
             }
@@ -773,13 +832,13 @@ async fn record(args: Args) {
     }
     let n = out.finish();
     let nf = fresh.map(|f| f.finish()).unwrap_or(0);
-    println!("{}", json!({"lines": n, "fresh_lines": nf, "audit_records": ticks, "strategy_views": views.len(), "opens": next_id, "link_notices": link_notices,
+    json!({"lines": n, "fresh_lines": nf, "names": names, "opens_filled": opens_filled, "audit_records": ticks, "strategy_views": views.len(), "opens": next_id, "link_notices": link_notices,
                             "commands_spanning_both_exchanges": mixed_batches, "commands": intended.len(), "close_positions_commands": closes, "links_killed": killed.len(),
                             "exchanges": present, "data_only": data_only.map(|d| d.as_str()).unwrap_or("none"), "data_only_position": position,
                             "market_notices": mnotices.values().sum::<usize>(), "market_notices_processed": market_notices_seen,
                             "market_notices_data_only": data_only.and_then(|d| mnotices.get(d.as_str()).copied()).unwrap_or(0),
                             "market_items_data_only": data_only_items, "filter_commands_matching_data_only": filters_matching_data_only,
-                            "on_disconnect_calls": calls.len(), "engine_stopped": stopped}));
+                            "on_disconnect_calls": calls.len(), "engine_stopped": stopped})
 }
 
 // =====================================================================================================
